@@ -4,6 +4,8 @@ import SdJwt.Lemmas.CodecL
 import SdJwt.Lemmas.SdOrderInv
 import SdJwt.Props.C01
 import SdJwt.Lemmas.Shuffle
+import SdJwt.Lemmas.IssueShuffled
+import SdJwt.Lemmas.SdOrderChild
 /-!
 # C13 — salts, digests and decoys give no handle for linking or counting claims  (partial)
 
@@ -212,3 +214,46 @@ example : shuffleJ List.reverse (.obj [("a", .obj [("_sd", .arr [.str "x", .str 
     .obj [("a", .obj [("_sd", .arr [.str "y", .str "x"])]),
       ("l", .arr [.obj [("_sd", .arr [.str "r", .str "q", .str "p"])]])] := by
   simp [shuffleJ, shuffleMems, shuffleElems]
+
+
+/-- **the issuer with ALL its shuffles.** The crate shuffles the digest lists of a value right before hiding
+it and the lists of the signed claims at the end; `IssueRun` is issuing at tree level with an arbitrary
+permutation of the visible digest lists before every marking step and after the last one. Starting from
+claims without digests: whatever permutations are drawn, the issued tree is conformant, stands for the same
+claims, and the holder — given its payload and all of the issuer's disclosures in any order — returns
+exactly those claims. Randomising the order of every digest list, top-level and nested, is invisible to
+every recipient. -/
+theorem C13_shuffled_issuance_round_trip (env : Env) (mk : Nat → Option String → J → String)
+    (addr : List (List String × String)) (T Tn : MJ) (ds : List SDisc) (inv : TreeInv T)
+    (hclean : T.deepStale = []) (hnomarks : T.allMarks = [])
+    (h : IssueRun mk 0 addr T Tn ds) (strs : List String)
+    (hstr : ∀ s ∈ strs, ∃ e ∈ ds, fromBase64 env s = .ok ⟨s, e.digest, e.key, e.value⟩)
+    (hnd : (strs.map env.hash).Nodup)
+    (hall : ∀ e ∈ ds, ∃ s ∈ strs, env.hash s = e.digest) :
+    TreeInv Tn ∧ ∃ c ps, restoreAll env Tn.payload strs = .ok (c, ps) ∧ removeAll c = T.plain := by
+  obtain ⟨invn, pln, _, amn, _⟩ := issueRun_inv mk addr 0 T Tn ds inv h
+  obtain ⟨c, ps, h1, h2⟩ := issueRun_restore env mk addr T Tn ds inv hclean h strs hstr hnd
+  refine ⟨invn, c, ps, h1, ?_⟩
+  rw [h2, ← pln]
+  apply MJ.project_congr
+  intro g hg
+  have hg' : g ∈ ds.map (·.digest) := by
+    have := amn.subset hg
+    simpa [hnomarks] using this
+  obtain ⟨e, he, rfl⟩ := List.mem_map.mp hg'
+  obtain ⟨s, hs, hh⟩ := hall e he
+  show (strs.any fun s => decide (env.hash s = e.digest)) = true
+  simp only [List.any_eq_true, decide_eq_true_eq]
+  exact ⟨s, hs, hh⟩
+
+
+/-- **what `build_disclosure` does before it hides a value is a step of `IssueRun`**: the value `x` at the
+address `toks` is still in the clear; `shuffle_digests` on it (`shuffleJ σ`, any `σ` returning permutations)
+gives the payload of a value `x'` that differs from `x` only in the order of its visible digest lists, and
+the working tree with `x'` in the place of `x` differs from the working tree only in the order of visible
+digest lists — exactly the permutation step `IssueRun` allows before a marking step. -/
+theorem C13_hide_time_shuffle_is_a_run_step (σ : List J → List J) (hσ : ∀ l, (σ l).Perm l)
+    (toks : List String) (T x : MJ) (hget : MJ.getDeep pI toks T = some x) (hwf : x.WF) :
+    ∃ x', shuffleJ σ x.payload = x'.payload ∧ T.sdPermVis (MJ.replaceDeep pI toks T x') := by
+  obtain ⟨x', hp, he⟩ := MJ.shuffle_payload σ hσ x hwf
+  exact ⟨x', he, MJ.sdPermVis_replaceDeep pI x x' hp toks T hget⟩
